@@ -352,7 +352,34 @@ def run(ctx):
         cid, k, mv, iv = bad_model[0]
         ctx.violation(replay_for(cid, k, {"obligation": "correspondence Model.Quantity.trace_q (extracted) vs the compiled crate",
                                           "model_step": mv, "implementation_step": iv, "count": len(bad_model)}), no_input=True)
+    # the same slots and a third of the cases in a build WITHOUT autoconvert (every operation here is between quantities sharing base
+    # units, so all of it compiles there): the quantity register must still follow the bare register
+    hn = Harness("c07n", [f for f in FEATURE_SETS["all"] if f != "autoconvert"], prelude=prelude(BASES, TYPES))
+    for body in h.slots:
+        hn.slot(body)
+    ncases = [c for i, c in enumerate(cases) if i % 3 == 0]
+    noac_bad = []
+    if not hn.build():
+        ctx.violation({"kind": "harness-build", "obligation": "the C07 harness no longer compiles against /repo without the autoconvert feature",
+                       "log": hn.build_log[-3000:]}, no_input=True)
+    else:
+        nimpl = hn.run(ncases)
+        for cid, slot, args in ncases:
+            got = nimpl.get(cid)
+            if got is None or got in ("PANIC", "BADOP", "NOSLOT"):
+                if impl.get(cid) not in (None, "PANIC", "BADOP", "NOSLOT"):
+                    noac_bad.append((cid, 0, f"without autoconvert the harness answered {got}"))
+                continue
+            for k, pr in enumerate(p.split("|") for p in got.split(";")):
+                if len(pr) != 2 or pr[0] != pr[1]:
+                    noac_bad.append((cid, k, f"without autoconvert: quantity register {pr[0]} != bare register {pr[1] if len(pr) > 1 else None}"))
+                    break
+        for cid, k, why in noac_bad[:3]:
+            ctx.violation(replay_for(cid, k, {"spec": "C07: stored value == raw operation on stored values (build without the autoconvert feature)", "detail": why,
+                                              "features_without": hn.features}))
     cov = ctx.coverage
+    cov["no_autoconvert_cases"] = len(ncases)
+    cov["no_autoconvert_failures"] = len(noac_bad)
     cov["evaluations"] = steps
     cov["distinct_nontrivial"] = len(distinct)
     cov["rule"] = ("one case = one history (initial value + op sequence) applied to a quantity register and to a bare register of the storage "
